@@ -273,20 +273,26 @@ def gen_beyond(rng, shape, Sn, Kn):
     `other end` term of min/max(data, other end) -+ 1 decides the replacement (the weight vanishes on the data range)"""
     n = 2 if shape == "rect" else 4
     left_inf = rng.random() < 0.5
-    fin = draw_sorted(rng, n // 2, lo=-6, hi=6)
+    off = lambda: rng.choice([0.0, 0.25, 0.5, 1.0, 2.0])
     if shape == "rect":
-        ends = [-INF, fin[0]] if left_inf else [fin[0], INF]
+        e = rng.randint(-6, 6) / 2
+        ends = [-INF, e] if left_inf else [e, INF]
+        lo_data = e if left_inf else None
+        hi_data = None if left_inf else e
     else:
-        ends = [-INF, -INF, fin[0], fin[1]] if left_inf else [fin[0], fin[1], INF, INF]
-    off = lambda: rng.choice([0.0, 0.5, 1.0, 1.5, 3.0])
+        # the ramp is wider than 1 and every data point lies at least 1 inside it, counted from the flat side:
+        # then ONLY the `other end` term keeps the replaced end point on the correct side of the ramp
+        e = rng.randint(-6, 6) / 2
+        wdt = rng.choice([1.5, 2.0, 3.0, 4.0])
+        ends = [-INF, -INF, e, e + wdt] if left_inf else [e - wdt, e, INF, INF]
+        lo_data = e + 1 if left_inf else None
+        hi_data = None if left_inf else e - 1
     if left_inf:
-        base = fin[-1]
-        fc = np.array([[base + off() for _ in range(Kn)] for _ in range(Sn)])
-        ob = np.array([[base + off() for _ in range(Kn)] for _ in range(Sn)])
+        fc = np.array([[lo_data + off() for _ in range(Kn)] for _ in range(Sn)])
+        ob = np.array([[lo_data + off() for _ in range(Kn)] for _ in range(Sn)])
     else:
-        base = fin[0]
-        fc = np.array([[base - off() for _ in range(Kn)] for _ in range(Sn)])
-        ob = np.array([[base - off() for _ in range(Kn)] for _ in range(Sn)])
+        fc = np.array([[hi_data - off() for _ in range(Kn)] for _ in range(Sn)])
+        ob = np.array([[hi_data - off() for _ in range(Kn)] for _ in range(Sn)])
     dims = [()] * n
     if rng.random() < 0.4:       # the same end points as arrays over s
         ends = [[e] * Sn for e in ends]
